@@ -2,6 +2,9 @@ package sx
 
 import (
 	"go/token"
+	"math"
+	"strconv"
+	"strings"
 
 	"golang.org/x/tools/go/ssa"
 )
@@ -48,6 +51,18 @@ func (m *Machine) tryMerged(caller *frame, pos token.Pos, fn *ssa.Function, args
 	if !m.W.pure(fn) {
 		m.note("merge: %s is not statically pure; executed with forking", fn.String())
 		return nil, false
+	}
+	// Summary cache: a pure callee applied to the same argument CONTENTS (no
+	// pointers among them) yields the same merged result; an entry computed under
+	// path condition P is complete for every path condition that contains P.
+	ckey, cacheable := m.summaryKey(fn, args, env)
+	if cacheable {
+		for _, e := range m.sumCache[ckey] {
+			if m.pcContains(e.pc) {
+				m.Stats.MergedCalls++
+				return m.pickClass(e.classes), true
+			}
+		}
 	}
 	pc0 := len(m.pc)
 	trace0 := len(m.trace)
@@ -136,12 +151,165 @@ func (m *Machine) tryMerged(caller *frame, pos token.Pos, fn *ssa.Function, args
 	}
 	m.Stats.MergedCalls++
 	m.Stats.MergedPaths += len(results)
+	out := make([]sumClass, len(classes))
+	for i, c := range classes {
+		out[i] = sumClass{c.cond, c.val}
+	}
+	if cacheable {
+		if m.sumCache == nil || m.sumCacheN > 200000 {
+			m.sumCache, m.sumCacheN = map[string][]*sumEntry{}, 0
+		}
+		m.sumCache[ckey] = append(m.sumCache[ckey], &sumEntry{pc: append([]T(nil), m.pc[:pc0]...), classes: out})
+		m.sumCacheN++
+	}
+	return m.pickClass(out), true
+}
+
+type sumClass struct {
+	cond T
+	val  Value
+}
+
+type sumEntry struct {
+	pc      []T
+	classes []sumClass
+}
+
+// pickClass forks between result classes of different shape (their conditions
+// are exhaustive and mutually exclusive by construction).
+func (m *Machine) pickClass(classes []sumClass) Value {
 	for i := 0; i < len(classes)-1; i++ {
 		if m.Decide(classes[i].cond) {
-			return classes[i].val, true
+			return copyVal(classes[i].val)
 		}
 	}
-	return classes[len(classes)-1].val, true
+	return copyVal(classes[len(classes)-1].val)
+}
+
+// pcContains reports whether every conjunct of sub is a conjunct of the
+// current path condition.
+func (m *Machine) pcContains(sub []T) bool {
+	if len(sub) > len(m.pc) {
+		return false
+	}
+	// common case: sub is a prefix of the current pc
+	pre := true
+	for i, c := range sub {
+		if m.pc[i] != c {
+			pre = false
+			break
+		}
+	}
+	if pre {
+		return true
+	}
+	set := make(map[T]bool, len(m.pc))
+	for _, c := range m.pc {
+		set[c] = true
+	}
+	for _, c := range sub {
+		if !set[c] {
+			return false
+		}
+	}
+	return true
+}
+
+// summaryKey renders the callee and the deep contents of its arguments; ok is
+// false when an argument reaches a pointer, map, closure or opaque value
+// (whose pointee contents the key could not see).
+func (m *Machine) summaryKey(fn *ssa.Function, args []Value, env []Value) (string, bool) {
+	if len(env) > 0 {
+		return "", false
+	}
+	var sb strings.Builder
+	sb.WriteString(fn.String())
+	for _, a := range args {
+		sb.WriteByte('|')
+		if !writeContentKey(&sb, a, 0) {
+			return "", false
+		}
+	}
+	return sb.String(), true
+}
+
+func writeContentKey(sb *strings.Builder, v Value, depth int) bool {
+	if depth > 6 {
+		return false
+	}
+	switch x := v.(type) {
+	case nil:
+		sb.WriteString("nil")
+	case T:
+		sb.WriteByte('t')
+		sb.WriteString(strconv.Itoa(x.ID))
+	case Str:
+		if x.B == nil {
+			sb.WriteString("s")
+			sb.WriteString(strconv.Quote(x.S))
+		} else {
+			sb.WriteString("S[")
+			for _, b := range x.B {
+				sb.WriteString(strconv.Itoa(b.ID))
+				sb.WriteByte(',')
+			}
+			sb.WriteByte(']')
+		}
+	case Slice:
+		if x.V == nil {
+			sb.WriteString("sl-nil")
+			return true
+		}
+		if len(x.V) > 64 {
+			return false
+		}
+		sb.WriteString("sl")
+		sb.WriteString(strconv.Itoa(cap(x.V) - len(x.V))) // spare capacity is observable through append
+		sb.WriteByte('[')
+		for _, e := range x.V {
+			if !writeContentKey(sb, e, depth+1) {
+				return false
+			}
+			sb.WriteByte(',')
+		}
+		sb.WriteByte(']')
+	case Array:
+		if len(x) > 64 {
+			return false
+		}
+		sb.WriteString("a[")
+		for _, e := range x {
+			if !writeContentKey(sb, e, depth+1) {
+				return false
+			}
+			sb.WriteByte(',')
+		}
+		sb.WriteByte(']')
+	case Struct:
+		sb.WriteString("{")
+		for _, e := range x {
+			if !writeContentKey(sb, e, depth+1) {
+				return false
+			}
+			sb.WriteByte(',')
+		}
+		sb.WriteByte('}')
+	case float64:
+		sb.WriteString("f")
+		sb.WriteString(strconv.FormatUint(math.Float64bits(x), 16))
+	case Iface:
+		if x.T == nil {
+			sb.WriteString("i-nil")
+			return true
+		}
+		sb.WriteString("i<")
+		sb.WriteString(typeStr(x.T))
+		sb.WriteByte('>')
+		return writeContentKey(sb, x.V, depth+1)
+	default:
+		return false
+	}
+	return true
 }
 
 type infeasibleMark struct{}
